@@ -4,6 +4,7 @@
 -/
 import TealerModel.Ast
 import TealerModel.Avm
+import TealerModel.Lemmas.StackEffect
 import Mathlib.Data.List.Forall2
 namespace Tealer.OperandValues
 open Tealer.Avm List
@@ -128,5 +129,167 @@ theorem vsim_step (valOf : Nat × Nat → Val) (sym : List Ref) (stack stack' : 
       · have h2 := forall₂_newtags valOf p pushed
         rw [hpush] at h2
         simpa using h2
+
+end Tealer.OperandValues
+
+namespace Tealer.OperandValues
+open Tealer.Avm List
+
+/-- the symbolic stack after the first `j` instructions of a block -/
+def symRun (ins : List Ins) : Nat → List Ref
+  | 0 => []
+  | j + 1 => (astStep (symRun ins j) j (ins[j]!).op).2
+
+/-- the operand list reconstructed for instruction `j` of the block -/
+def argsAt (ins : List Ins) (j : Nat) : List Ref := (astStep (symRun ins j) j (ins[j]!).op).1
+
+theorem constructAst_fold (ins : List Ins) :
+    ∀ (suf pre : List Ins), ins = pre ++ suf →
+      (suf.zipIdx pre.length).foldl (fun (x : List Ref × List (List Ref)) (y : Ins × Nat) =>
+          ((astStep x.1 y.2 y.1.op).2, x.2 ++ [(astStep x.1 y.2 y.1.op).1]))
+        (symRun ins pre.length, (List.range pre.length).map (argsAt ins)) =
+      (symRun ins ins.length, (List.range ins.length).map (argsAt ins)) := by
+  intro suf
+  induction suf with
+  | nil => intro pre h; subst h; simp
+  | cons a suf ih =>
+    intro pre h
+    have hget : ins[pre.length]! = a := by subst h; simp
+    simp only [List.zipIdx_cons, List.foldl_cons]
+    have := ih (pre ++ [a]) (by subst h; simp)
+    simp only [List.length_append, List.length_cons, List.length_nil, Nat.zero_add] at this
+    rw [← this]
+    congr 1
+    simp only [symRun, argsAt, hget, List.range_succ, List.map_append, List.map_cons, List.map_nil]
+
+/-- `constructAst` lists, for every instruction of the block, the operand list of the step-by-step reconstruction -/
+theorem constructAst_args (ins : List Ins) : (constructAst ins).args = (List.range ins.length).map (argsAt ins) := by
+  have hfold := constructAst_fold ins ins [] rfl
+  simp only [List.length_nil, List.range_zero, List.map_nil, symRun] at hfold
+  have e : ∀ (l : List (Ins × Nat)) (x0 : List Ref × List (List Ref)),
+      l.foldl (fun (x : List Ref × List (List Ref)) (y : Ins × Nat) =>
+        match x with
+        | (st, acc) =>
+          match y with
+          | (i, p) =>
+            match astStep st p i.op with
+            | (a, st') => (st', acc ++ [a])) x0 =
+      l.foldl (fun (x : List Ref × List (List Ref)) (y : Ins × Nat) =>
+          ((astStep x.1 y.2 y.1.op).2, x.2 ++ [(astStep x.1 y.2 y.1.op).1])) x0 := by
+    intro l
+    induction l with
+    | nil => intro x0; rfl
+    | cons y l ih =>
+      intro x0
+      obtain ⟨st, acc⟩ := x0
+      obtain ⟨i, p⟩ := y
+      simp only [List.foldl_cons]
+  unfold constructAst
+  simp only []
+  rw [e, hfold]
+
+theorem astStep_cells (sym : List Ref) (p : Nat) (op : Op) :
+    (∀ c ∈ (astStep sym p op).1, c = none ∨ c ∈ sym) ∧
+    (∀ c ∈ (astStep sym p op).2, c ∈ sym ∨ ∃ j, c = some (p, j)) := by
+  unfold astStep popN
+  by_cases hk : op.pops ≤ sym.length
+  · simp only [hk, if_true]
+    constructor
+    · intro c hc; exact Or.inr (List.mem_of_mem_drop hc)
+    · intro c hc
+      rcases List.mem_append.mp hc with h | h
+      · exact Or.inl (List.mem_of_mem_take h)
+      · obtain ⟨j, _, rfl⟩ := List.mem_map.mp h
+        exact Or.inr ⟨j, rfl⟩
+  · simp only [hk, if_false]
+    constructor
+    · intro c hc
+      rcases List.mem_append.mp hc with h | h
+      · exact Or.inl (List.mem_replicate.mp h).2
+      · exact Or.inr h
+    · intro c hc
+      simp only [List.nil_append] at hc
+      obtain ⟨j, _, rfl⟩ := List.mem_map.mp hc
+      exact Or.inr ⟨j, rfl⟩
+
+/-- the tags on the symbolic stack after `j` instructions name earlier instructions only -/
+theorem symRun_tags (ins : List Ins) : ∀ j, ∀ c ∈ symRun ins j, ∀ q, c = some q → q.1 < j := by
+  intro j
+  induction j with
+  | zero => intro c hc; cases hc
+  | succ j ih =>
+    intro c hc q hq
+    simp only [symRun] at hc
+    rcases (astStep_cells (symRun ins j) j (ins[j]!).op).2 c hc with h | ⟨k, hk⟩
+    · have := ih c h q hq; omega
+    · rw [hk] at hq; cases hq; simp
+
+theorem argsAt_tags (ins : List Ins) (j : Nat) : ∀ c ∈ argsAt ins j, ∀ q, c = some q → q.1 < j := by
+  intro c hc q hq
+  rcases (astStep_cells (symRun ins j) j (ins[j]!).op).1 c hc with h | h
+  · rw [h] at hq; cases hq
+  · exact symRun_tags ins j c h q hq
+
+theorem forall₂_agree_congr (v1 v2 : Nat × Nat → Val) (l : List Ref) (vs : List Val)
+    (h : Forall₂ (Agree v1) l vs) (heq : ∀ c ∈ l, ∀ q, c = some q → v2 q = v1 q) : Forall₂ (Agree v2) l vs := by
+  rw [forall₂_iff_zip] at h ⊢
+  refine ⟨h.1, ?_⟩
+  intro c v hcv q hq
+  rw [heq c (List.of_mem_zip hcv).1 q hq]
+  exact h.2 hcv q hq
+
+/-- a straight run through the first `k` instructions of a block that starts at program position `pc0` -/
+structure BlockRun (prog : List Ins) (e : Env) (blockIns : List Ins) (pc0 k : Nat) (st : Nat → State) : Prop where
+  len : k ≤ blockIns.length
+  code : ∀ j, j < k → prog[pc0 + j]? = some (blockIns[j]!)
+  pcs : ∀ j, j ≤ k → (st j).pc = pc0 + j
+  steps : ∀ j, j < k → step prog e (st j) = .next (st (j + 1))
+  dedicated : ∀ j, j < k → ∀ n a b, (blockIns[j]!).op ≠ .other n a b
+
+/-- ALONG A WHOLE BLOCK.  For a straight run of the concrete machine through the first `k` (dedicated-opcode) instructions
+    of a block there is ONE assignment of values to tags — tag (q, j) ↦ the value instruction q of the block pushed as its
+    output j — under which, for every instruction of the run, the operand list `constructAst` computes for it agrees
+    position by position with the values that instruction really popped; Unknown operands are values that were on the stack
+    before the block. -/
+theorem block_operands (prog : List Ins) (e : Env) (blockIns : List Ins) (pc0 : Nat) (st : Nat → State) :
+    ∀ k, BlockRun prog e blockIns pc0 k st →
+      ∃ valOf : Nat × Nat → Val,
+        VSim valOf (symRun blockIns k) (st k).stack ∧
+        ∀ j, j < k → Forall₂ (Agree valOf) (argsAt blockIns j)
+          ((st j).stack.drop ((st j).stack.length - (blockIns[j]!).op.pops)) := by
+  intro k
+  induction k with
+  | zero =>
+    intro _
+    exact ⟨fun _ => .int 0, ⟨(st 0).stack, [], by simp, Forall₂.nil⟩, fun j hj => absurd hj (by omega)⟩
+  | succ k ih =>
+    intro hrun
+    have hprev : BlockRun prog e blockIns pc0 k st :=
+      ⟨by have := hrun.len; omega, fun j hj => hrun.code j (by omega), fun j hj => hrun.pcs j (by omega),
+       fun j hj => hrun.steps j (by omega), fun j hj => hrun.dedicated j (by omega)⟩
+    obtain ⟨valOf, hsim, hargs⟩ := ih hprev
+    have hi : prog[(st k).pc]? = some (blockIns[k]!) := by
+      rw [hrun.pcs k (by omega)]; exact hrun.code k (by omega)
+    obtain ⟨hpops, pushed, hlen, hstack⟩ :=
+      StackEffect.step_effect prog e (st k) (st (k + 1)) (blockIns[k]!) hi (hrun.dedicated k (by omega)) (hrun.steps k (by omega))
+    have hfresh : ∀ c ∈ symRun blockIns k, ∀ q, c = some q → q.1 ≠ k := by
+      intro c hc q hq
+      have := symRun_tags blockIns k c hc q hq
+      omega
+    obtain ⟨h1, h2⟩ := vsim_step valOf (symRun blockIns k) (st k).stack (st (k + 1)).stack k (blockIns[k]!).op pushed
+      hsim hfresh hpops hlen hstack
+    refine ⟨extend valOf k pushed, ?_, ?_⟩
+    · simpa [symRun] using h2
+    · intro j hj
+      have hkeep : ∀ c ∈ argsAt blockIns j, ∀ q, c = some q → extend valOf k pushed q = valOf q := by
+        intro c hc q hq
+        have := argsAt_tags blockIns j c hc q hq
+        unfold extend
+        have hne : ¬ q.1 = k := by omega
+        simp [hne]
+      by_cases hjk : j = k
+      · subst hjk
+        exact forall₂_agree_congr valOf _ _ _ h1 hkeep
+      · exact forall₂_agree_congr valOf _ _ _ (hargs j (by omega)) hkeep
 
 end Tealer.OperandValues
